@@ -41,14 +41,14 @@ CHECKS = {
         "nothrow move); pointer any_cast hands out storage only after the null and typeid(T) tests, reference forms go through check_any_cast. Equality of stored values is NOT decided. An assignment from another any takes the source into a temporary before the old content of *this is destroyed (the content may own the source).",
    note="Trusts the interpreters in sa/rules/c06.py and clang's AST; payload constructors/destructors are assumed to do what their names say; type_info identity across shared libraries is out of scope."),
  "C03": dict(level="other", design="4.3",
-   technique="path-sensitive typestate (canonical last block) over every instantiated member for 4 block types, exact constant folding of the bit/block helper formulas over all bit offsets, linear bit-displacement/coverage analysis of the shift loops, guard entailment for at()/empty-buffer accesses, size/block-count agreement, promotion-decided comparison lint",
+   technique="path-sensitive typestate (canonical last block) over every instantiated member for 4 block types, exact constant folding of the bit/block helper formulas over all bit offsets, linear bit-displacement/coverage analysis of the shift loops, guard entailment for at()/empty-buffer accesses, size/block-count agreement, folded loop index sets, in-place move order, promotion-decided comparison lint",
    text="Decides structural necessary conditions on every instantiated member of xdynamic_bitset_base/xdynamic_bitset/xdynamic_bitset_view for uint8/16/32/64 blocks: "
         "every normal exit leaves bits >= size() cleared (stores classified preserving/dirtying, zero_unused_bits() is the cleaning event, constructors start from the state "
         "their storage expression establishes); block_index/bit_index/bit_mask/compute_block_count/integer_ceil/count_extra_bits, the unused-bit masks and the bit-reference "
         "mask/primitives equal their defining formulas for every bit offset (folded with clang's recorded promotions/conversions, shift-width UB reported); each block move of "
         "<<= / >>= displaces bits by exactly pos, stays inside [0,last], and moved ranges + zero fill tile the buffer; at() throws out_of_range exactly for i >= size(); "
         "front/back/[0]/[count-1] need a dominating non-emptiness fact; the buffer is sized ceil(size/W) wherever size is set; resize(n,true) patches the old last block; "
-        "no block comparison is decided by integer promotion; whole-buffer loops run over blocks 0..block_count()-1; the popcount table and the bit-reference assignment operators are folded exactly. Bit values produced by operation histories are NOT decided.",
+        "no block comparison is decided by integer promotion; every loop that subscripts the block buffer visits exactly the blocks of the buffer for every size 0..2W+1 (bounds folded; a separately treated last block keeps every valid bit under its mask); the in-place block moves of the shifts run away from their sources; the popcount table and the bit-reference assignment operators are folded exactly; all rules are repeated on the narrowest block type under the other language levels. Bit values produced by operation histories are NOT decided.",
    note="Assumes callers respect pos < size() for unchecked single-bit operations and equal sizes for blockwise operators; a restructured shift algorithm is reported as analysis-broken (exit 2), not as a violation; trusts sa/flow.py, sa/ceval.py, sa/linear.py."),
  "C17": dict(level="other", design="4.15",
    technique="abstract execution of INSTANTIATED dispatchers over the calls clang resolved: static_dispatcher for every pair of dynamic types (same and different rhs list, symmetric or not), basic_fast_dispatcher insert/dispatch over the nested table with three levels; path-wise guard-dominance rules for the map lookups, the visitors and resize_container (linear entailment incl. its exit postcondition)",
@@ -68,12 +68,12 @@ CHECKS = {
         "classify the component they box, the divisor scale is logb(max(|c|,|d|)), scalbn exponents agree; all closure-kind combinations compile. A binary operation with at least one IEEE operand yields an IEEE xcomplex in either order (witnesses); the divisor is rescaled whenever its exponent is finite, under no further threshold.",
    note="Rounding, special-value outcomes and scaling accuracy are numeric and NOT decided; trusts the polynomial evaluator and clang/g++."),
  "C11": dict(level="other", design="4.9",
-   technique="sibling-storage pairing rule over every member/constructor pattern of both container families, ==/!= shape, paired-iterator lockstep (symbolic positions), default-initialisation witnesses",
+   technique="sibling-storage pairing rule over every member/constructor pattern of both container families, ==/!= shape, paired-iterator lockstep (symbolic positions), default-initialisation witnesses, contents of the built storages (zeroing flags), reference-parameter-before-reallocation typestate",
    text="Decides the lockstep structure: in each of the ~45 members/constructors of xoptional_sequence/vector/array and xcomplex_sequence/vector/array "
         "every use of the first storage must be mirrored in order by the same operation on the second with the same size/index argument and the "
         "prescribed fill (none->false, plain->true, v.value()->v.has_value(), .real()->.imag()), results are built (first, second); operator== compares "
         "both storages; the paired iterators move/compare both sub-iterators alike; the array variants size both storages in their default constructor "
-        "and are not trivially default constructible.",
+        "and are not trivially default constructible; make_sequence yields value-initialised / filled storages; a value passed by reference is consumed before the storage it may alias is reallocated; == of the flag bitset covers every block.",
    note="Assumes make_sequence and the std containers behave as specified; at()/resize of the flag bitset itself belong to C03."),
  "C12": dict(level="other", design="4.10",
    technique="symbolic-position (polynomial) evaluation of every derived operator and every iterator primitive over the template patterns; ordering truth tables; primitive exhaustiveness",
@@ -105,11 +105,11 @@ CHECKS = {
         "endianness() yields big/little/mixed exactly when byte 0 of a whole-object copy of a probe with distinct bytes is its MSB/LSB/anything else, compile-time tests folded to this target. The path obtained from the OS is returned unedited (no erase/resize/replace after it was built).",
    note="What the OS returns for a given install location is outside static reach; only the Linux branch of xsystem.hpp is visible in this sandbox."),
  "C13": dict(level="other", design="4.11",
-   technique="type/mask-based interval analysis of table subscripts (const locals read through) + alphabet/sentinel agreement + sentinel-guard dominance in the input loop + accumulator-constant consistency, with locals substituted and comparisons normalised (operand order, negation)",
+   technique="type/mask-based interval analysis of table subscripts (const locals read through) + alphabet/sentinel agreement + sentinel-guard dominance in the input loop + accumulator-constant consistency, with locals substituted and comparisons normalised (operand order, negation); bit-provenance dataflow of the alphabet indices of group-wise encoders; exact folding of an alphabet given as a function",
    text="Decides structural necessary conditions only: every subscript of the 256-entry decode table and of the 65-byte alphabet literal has an "
         "index whose interval (from operand types, casts and masks) lies inside the extent; the three alphabet literals equal RFC 4648, the pad is '=', "
         "the table is built as T[alphabet[i]] = i for exactly i=0..63 over a sentinel outside 0..63; the decoder tests that sentinel before a "
-        "character contributes; the shift/counter/mask constants of both accumulators are mutually consistent. Round-trip equality is NOT decided.",
+        "character contributes; the shift/counter/mask constants of both accumulators are mutually consistent; where the encoder builds characters directly from bytes, every index bit has the RFC 4648 provenance. Round-trip equality is NOT decided.",
    note="Trusts clang's resolved AST and sa/trange.py; an accumulator of a different shape is reported as analysis-broken, not as a violation."),
  "C16": dict(level="other", design="4.14",
    technique="symbolic linear-arithmetic entailment (guard implies range) over the span class-template pattern with helper members expanded, path-wise entailment for at(), wrap-free-atom lint, mode table from 4 configurations, body-instantiation witnesses under two compilers",
@@ -123,7 +123,7 @@ CHECKS = {
    text="Decides the property at the level of the overload bodies: each of the ~240 xoptional/xmasked_value operator, compound-assignment, "
         "comparison, lifted-function, select and value_or bodies (template patterns, so overloads no test instantiates are covered) is evaluated "
         "under all 2^k presence assignments with short-circuit semantics; obligations: presence = conjunction, value = own operation on operand "
-        "values in parameter order, no operation touches a missing operand's value, compound-assignment flag/target rules, ==/!= truth table.",
+        "values in parameter order, no operation touches a missing operand's value, compound-assignment flag/target rules, ==/!= truth table; no function of the optional/masked-value headers has a failure exit (throw, assert without NDEBUG, abort).",
    note="Trusts the ~400-line evaluator sa/presence.py and clang's pattern AST; assumes the underlying operation on the value types means what its name says; unary operators and == are exempt from non-evaluation as in the statement."),
  "C15": dict(level="proof", design="4.13",
    technique="interval/ordering abstract interpretation of every instantiation over clang's resolved AST + constexpr static_assert witnesses",
@@ -135,13 +135,13 @@ CHECKS = {
  "C18": dict(level="proof", design="4.16",
    technique="generated static_assert witnesses against independent oracles (Python list operations, decltype of a+b+c, std:: traits), discharged by the compiler",
    text="Every law is a static_assert generated for all type lists up to a bound (quick: length<=3 complete plus samples to 7; thorough: <=5), all "
-        "promote_type packs of 1..2 (quick, plus thinned triples) / 1..3 (thorough) over 15 arithmetic types and 3 std::complex forms, all truth vectors "
-        "up to 3/4 for the logical traits and hand-derived cv tables; the compiler discharges each on the current headers. Exhaustive within those bounds.",
+        "promote_type packs of 1..2 (quick, plus thinned triples) / 1..3 (thorough) over 18 arithmetic types (incl. wchar_t, char16_t, char32_t) and 3 std::complex forms, all truth vectors "
+        "up to 3/4 for the logical traits with short-circuit (non-instantiation) witnesses, and hand-derived cv tables; the compiler discharges each on the current headers. Exhaustive within those bounds.",
    note="Trusts clang++ (and g++ in thorough) template instantiation; oracles live in sa/rules/c18.py; lists longer than the bound are not covered."),
  "C19": dict(level="exploration", design="4.17",
    technique="compile matrix + AST ODR lint + link witness + throw/noreturn pairing between exception configurations (static; nothing is executed)",
    text="Decides the property itself over the finite configuration set: every header x {g++, clang++} x standards x {exceptions, -fno-exceptions} "
-        "is compiled alone and twice (quick: C++17; thorough: 14/17/20 plus all ordered header pairs); an AST lint and a two-TU link witness decide the "
+        "is compiled alone and twice (quick: C++17; thorough: 14/17/20 plus all ordered header pairs); an AST lint, a two-TU link witness and a C++14 link of the class templates instantiated in full decide the "
         "duplicate/undefined-symbol clause; 'error paths terminate' is decided structurally by pairing every throw site with a noreturn call in the "
         "-fno-exceptions AST.",
    note="Trusts g++ 12 / clang++ 14 / GNU ld as arbiters of compiles/links; 'terminates' is read as 'reaches a call to a noreturn function'; MSVC is out of reach."),
